@@ -247,6 +247,19 @@ func (c *c12x) chunk(d *c12xCk) {
 	}
 	if got != want {
 		c.vio("chunk_not_preserved", key, cs, func() string { return "original: " + want + "\n  decoded:  " + got })
+		return
+	}
+	// The sql node decodes a chunk out of the connection's pooled receive buffer and gives the buffer back at once
+	// (lib/spdy mux: decode, then FreeData); the next frame overwrites it while the chunk is still queued downstream.
+	// A decoded chunk must therefore own its data: overwrite the frame and read the chunk again.
+	for i := range buf {
+		buf[i] = 0xEE
+	}
+	got, err = c12xDumpChunk(dec)
+	if err != nil || got != want {
+		c.vio("chunk_aliases_receive_buffer", key, cs, func() string {
+			return fmt.Sprintf("after the receive buffer was reused the decoded chunk reads differently (err=%v)\n  original: %s\n  decoded:  %s", err, want, got)
+		})
 	}
 }
 
@@ -471,6 +484,9 @@ func (c *c12x) plan(names []string, ops map[string]c12xOp) {
 			return
 		}
 		dec, err = UnmarshalBinary(buf, s)
+		for i := range buf { // the message buffer is recycled after decoding: the plan must not alias it
+			buf[i] = 0xEE
+		}
 	}()
 	if err != nil {
 		c.vio("plan_codec_error", key, cs, func() string { return err.Error() + "\n  plan: " + want })
@@ -553,6 +569,9 @@ func (c *c12x) queryNodes() {
 				return
 			}
 			dec, err = UnmarshalQueryNode(buf, 2, opt)
+			for i := range buf { // the message buffer is recycled after decoding
+				buf[i] = 0xEE
+			}
 		}()
 		if err != nil {
 			c.vio("plan_codec_error", key, cs, func() string { return err.Error() + "\n  plan: " + want })
@@ -786,6 +805,9 @@ func (c *c12x) rpc(only int) {
 				return
 			}
 			err = dec.Unmarshal(buf)
+			for i := range buf { // the message buffer is recycled after decoding
+				buf[i] = 0xEE
+			}
 		}()
 		if err != nil {
 			c.vio("remote_query_codec_error", key, cs, func() string { return err.Error() })
